@@ -6,7 +6,7 @@
 //! For each case the operation is first run fault-free (to learn `total`), then once
 //! per failing offset; every run is logged as events for specs/io/Trace_Io.tla.
 
-use dicom_core::value::{DataSetSequence, PrimitiveValue};
+use dicom_core::value::{DataSetSequence, PixelFragmentSequence, PrimitiveValue, Value as DcmValue};
 use dicom_core::{DataElement, Tag, VR};
 use dicom_dictionary_std::{tags, uids};
 use dicom_encoding::TransferSyntaxIndex;
@@ -134,7 +134,7 @@ fn make_obj(shape: &str) -> InMemDicomObject {
         DataElement::new(tags::PATIENT_ID, VR::LO, "ID1"),
         DataElement::new(tags::ROWS, VR::US, PrimitiveValue::from(2u16)),
     ]);
-    if shape == "nested" || shape == "pixel" || shape == "large" {
+    if shape == "nested" || shape == "pixel" || shape == "large" || shape == "encaps" {
         let item = InMemDicomObject::from_element_iter([
             DataElement::new(tags::CODE_VALUE, VR::SH, "C1"),
             DataElement::new(tags::CODE_MEANING, VR::LO, "meaning"),
@@ -149,6 +149,15 @@ fn make_obj(shape: &str) -> InMemDicomObject {
             VR::SQ,
             DataSetSequence::from(vec![item, inner, InMemDicomObject::new_empty()]),
         ));
+    }
+    if shape == "encaps" {
+        // encapsulated pixel data: offset table + two fragments, then a trailing element
+        obj.put(DataElement::new(
+            tags::PIXEL_DATA,
+            VR::OB,
+            DcmValue::from(PixelFragmentSequence::new(vec![0u32, 16], vec![vec![1u8; 8], vec![2u8; 12]])),
+        ));
+        obj.put(DataElement::new(Tag(0x7FE1, 0x0010), VR::LO, "TRAILER"));
     }
     if shape == "pixel" || shape == "large" {
         // odd length, and the last element of the data set: the writer's own padding byte is the very last
